@@ -69,6 +69,12 @@ func runAttemptExec(execID int, sci any, e *Env) []rec.Ev {
 	ctx, cancel := withCancelCause(context.Background())
 	if sc.Pre {
 		cancel()
+		if execID%2 == 1 {
+			// done by an expired deadline instead of a cancel: Err() is DeadlineExceeded, not Canceled
+			var c2 context.CancelFunc
+			ctx, c2 = context.WithDeadline(context.Background(), time.Now().Add(-time.Hour))
+			defer c2()
+		}
 	}
 	e.R.Add(rec.Ev{"ev": "reset", "exec": execID, "mode": e.Mode, "count": sc.Count, "pre": sc.Pre})
 	var ch <-chan time.Time
